@@ -71,6 +71,10 @@ CHECKS = {
    "the merge engines on the legacy package within the stated domains",
    "Legacy MergePatch edges (object/array patches), CreateMergePatch pairs (float64-printable numbers), MergeMergePatches composition, Equal on object/array roots without escapes - all exhaustively over the same value families as the v5 checks.",
    T+"Domains as stated in the property."),
+ "C20": ("cmdx", "DESIGN.md §4 E7, §5 C20",
+   "exhaustive enumeration of -p argument lists (order, repetition) over a patch-file menu x stdin documents, each run as a real process of the binary built from the working tree; byte-exact comparison with the library fold and value comparison with the reference fold",
+   "Every list of 0..2 (thorough 3) patch files over a 12-file menu (valid non-commuting patches, one applicable only after another, failing test, malformed, unknown op, missing file, directory, empty, empty patch, root-replacing) x 6 stdin documents is executed with both command binaries (v5 cmd, legacy cmd). Success: stdout byte-identical to folding the library's Apply over the files in command-line order, exit 0, value equal to the reference fold. Any unreadable/undecodable/inapplicable patch: empty stdout, non-empty stderr, non-zero exit.",
+   T+"The expected bytes come from the library linked into the harness (same tree). With no -p the command echoes stdin, which is what folding zero patches yields."),
 }
 
 NOT_YET = {}
@@ -112,6 +116,7 @@ def main():
               ("mergex", "harness/mergex.go", "documents as states, merge patches as edges: exhaustive pairs/triples over enumerated value families"),
               ("bytex", "harness/bytex.go", "all byte strings up to a length into every []byte parameter"),
               ("scanx", "harness/scanx_hook.go", "reachability over the product of the real scanner automaton and a reference pushdown recogniser"),
+              ("cmdx", "harness/cmdx.go", "black-box exhaustive enumeration of command lines x stdin documents on the built binaries"),
               ("decodex", "harness/decodex.go", "all single/pair member mutations of valid operations vs. a reference acceptance predicate"),
             ]
         ],
